@@ -231,7 +231,11 @@ def check_reconvert(case):
                 cls.add('add_gates')
             elif m['kind'] == 'add_circuit':
                 oc = build.build(m['other'], None)
-                c.add_circuit(oc, name=f'sub{k}')
+                # (the host may already hold labels shaped like the ones add_circuit generates: pick a free block name)
+                name = f'sub{k}'
+                while any(f'{name}@{g}' in c.gates for g in oc.gates) or name in c.blocks:
+                    name += '_'
+                c.add_circuit(oc, name=name)
                 cls.add('add_circuit')
             elif m['kind'] == 'rename':
                 old = labs[m['x'] % len(labs)]
